@@ -445,7 +445,7 @@ func c13Units(t Tier, seed uint64, mode string) []engine.Unit {
 	for ti, tr := range c13trees() {
 		_ = ti
 		tr := tr
-		for i := 0; i < 60*t.F; i++ {
+		for i := 0; i < 400*t.F; i++ {
 			name := fmt.Sprintf("c13/%s/hist/%d", tr.name, i)
 			us = append(us, engine.Unit{Name: name, Run: func(res *ev.Result) {
 				r := rng.New(seed, rng.HashString(name))
@@ -453,7 +453,7 @@ func c13Units(t Tier, seed uint64, mode string) []engine.Unit {
 				res.Inc("units_history")
 			}})
 		}
-		for i := 0; i < 6*t.F; i++ {
+		for i := 0; i < 12*t.F; i++ {
 			name := fmt.Sprintf("c13/%s/scanner/%d", tr.name, i)
 			us = append(us, engine.Unit{Name: name, Run: func(res *ev.Result) {
 				r := rng.New(seed, rng.HashString(name))
